@@ -475,12 +475,29 @@ def run_crash(case):
     kill = case["kill"]
     p = None
     try:
-        p = subprocess.Popen([PY, os.path.abspath(__file__), "child"], stdin=subprocess.PIPE,
+        cmd = [PY, os.path.abspath(__file__), "child"]
+        if kill["mode"] == "syscall":
+            # deterministic kill point: the writer runs under strace, which delivers SIGKILL at the entry of the
+            # k-th storage system call of the given kind (page writes to journal and database, syncs, the unlink
+            # of the journal that commits) - before that call takes effect
+            cmd = ["strace", "-f", "-o", "/dev/null", "-e", "trace=" + kill["syscall"],
+                   "-e", "inject=%s:signal=SIGKILL:when=%d" % (kill["syscall"], kill["when"])] + cmd
+        p = subprocess.Popen(cmd, stdin=subprocess.PIPE,
                              stdout=subprocess.PIPE, stderr=subprocess.DEVNULL,
                              env=dict(os.environ, VINEGAR_REPO=REPO, PYTHONDONTWRITEBYTECODE="1"))
         p.stdin.write((json.dumps({"db": db_file, "views": case["views"]}) + "\n").encode())
         p.stdin.flush()
         if not p.stdout.readline().startswith(b"ready"):
+            if kill["mode"] == "syscall":
+                # killed while the store was creating its tables: nothing was acknowledged; whatever is on disk
+                # must be an empty map (or no database yet)
+                p.wait()
+                try:
+                    final = fresh_process_dump(db_file)
+                except RuntimeError:
+                    final = []
+                return {"acked": 0, "final": final, "results": [], "hot_journal": os.path.exists(db_file + "-journal"),
+                        "killed_signal": 9}
             return {"harness_exception": "writer did not start"}
         payload = "".join(json.dumps(st, separators=(",", ":")) + "\n" for st in case["steps"]).encode()
         import threading
@@ -488,6 +505,29 @@ def run_crash(case):
         th.start()
         acked = 0
         results = []
+        if kill["mode"] == "syscall":
+            th.join(30)
+            try:
+                p.stdin.close()         # the writer ends by itself if the kill point is never reached
+            except Exception:  # noqa
+                pass
+            rest = p.stdout.read()
+            p.wait()
+            for line in rest.split(b"\n"):
+                if line.strip():
+                    try:
+                        results.append(json.loads(line)["res"])
+                        acked += 1
+                    except ValueError:
+                        pass
+            journal = os.path.exists(db_file + "-journal")
+            try:
+                final = fresh_process_dump(db_file)
+            except RuntimeError as e:
+                return {"acked": acked, "final": [], "results": results, "hot_journal": journal, "killed_signal": 9,
+                        "unreadable": str(e)[-300:]}
+            return {"acked": acked, "final": final, "results": results, "hot_journal": journal,
+                    "killed_signal": 9 if acked < len(case["steps"]) else None}
         while acked < kill["after"]:
             line = p.stdout.readline()
             if not line:
@@ -509,7 +549,12 @@ def run_crash(case):
                 except ValueError:
                     pass                # a torn last line is not an acknowledgement
         journal = os.path.exists(db_file + "-journal")
-        final = fresh_process_dump(db_file)
+        try:
+            final = fresh_process_dump(db_file)
+        except RuntimeError as e:
+            # the database a killed writer left behind cannot be read by a fresh process
+            return {"acked": acked, "final": [], "results": results, "hot_journal": journal,
+                    "killed_signal": 9, "unreadable": str(e)[-300:]}
         return {"acked": acked, "final": final, "results": results, "hot_journal": journal,
                 "killed_signal": -p.returncode if p.returncode and p.returncode < 0 else None}
     finally:
